@@ -377,8 +377,90 @@ func buildBody(c *Chooser, k string) (body string, supi string) {
 	if c.Pick(2, "registrationChargingInformation") == 1 {
 		o["registrationChargingInformation"] = jsonObj{}
 	}
+	// members the charging function may or may not look at, present but empty or odd
+	if pci, ok := o["pDUSessionChargingInformation"].(jsonObj); ok {
+		switch c.Pick(7, "pduChargingInformation.members") {
+		case 1:
+			pci["userInformation"] = jsonObj{}
+		case 2:
+			pci["userInformation"] = jsonObj{"servedGPSI": "", "servedPEI": "", "unauthenticatedFlag": true, "roamerInOut": "BOGUS"}
+		case 3:
+			pci["userLocationinfo"] = jsonObj{}
+		case 4:
+			pci["userLocationinfo"] = jsonObj{"nrLocation": jsonObj{}, "eutraLocation": jsonObj{"tai": jsonObj{}}}
+		case 5:
+			pci["uetimeZone"] = "not-a-zone"
+			pci["presenceReportingAreaInformation"] = jsonObj{"pra": jsonObj{}}
+		case 6:
+			pci["unitCountInactivityTimer"] = -1
+			pci["rANSecondaryRATUsageReport"] = jsonObj{}
+		}
+		if psi, ok := pci["pduSessionInformation"].(jsonObj); ok {
+			switch c.Pick(5, "pduSessionInformation.members") {
+			case 1:
+				psi["pduAddress"] = jsonObj{}
+				psi["authorizedQoSInformation"] = jsonObj{}
+				psi["subscribedSessionAMBR"] = jsonObj{}
+			case 2:
+				psi["hPlmnId"] = jsonObj{"mcc": "é1", "mnc": "9"}
+				psi["servingCNPlmnId"] = jsonObj{}
+				psi["servingNetworkFunctionID"] = jsonObj{}
+			case 3:
+				psi["pduType"] = "BOGUS"
+				psi["sscMode"] = ""
+				psi["ratType"] = "BOGUS"
+				psi["startTime"] = "yesterday"
+			case 4:
+				psi["dnnId"] = strings.Repeat("d", 5000)
+				psi["pduSessionID"] = -7
+				psi["chargingCharacteristics"] = "zz"
+			}
+		}
+	}
+	switch c.Pick(6, "other-charging-information") {
+	case 1:
+		o["roamingQBCInformation"] = jsonObj{}
+	case 2:
+		o["n2ConnectionChargingInformation"] = jsonObj{}
+		o["locationReportingChargingInformation"] = jsonObj{}
+	case 3:
+		o["sMSChargingInformation"] = jsonObj{}
+		o["nEFChargingInformation"] = jsonObj{}
+	case 4:
+		o["serviceSpecificationInfo"] = strings.Repeat("s", 5000)
+		o["tenantIdentifier"] = ""
+		o["retransmissionIndicator"] = true
+		o["supportedFeatures"] = "zz"
+	case 5:
+		o["chargingId"] = -2147483648
+		o["oneTimeEventType"] = "BOGUS"
+	}
+	switch c.Pick(3, "invocationTimeStamp.shape") {
+	case 1:
+		o["invocationTimeStamp"] = "garbage"
+	case 2:
+		o["invocationTimeStamp"] = ""
+	}
 	cont := func() jsonObj {
 		u := jsonObj{"localSequenceNumber": 1, "totalVolume": 10}
+		switch c.Pick(5, "usedUnitContainer.members") {
+		case 1:
+			u["eventTimeStamps"] = []any{}
+			u["triggers"] = []any{jsonObj{}, nil}
+		case 2:
+			u["pDUContainerInformation"] = jsonObj{}
+			u["nSPAContainerInformation"] = jsonObj{}
+		case 3:
+			u["triggerTimestamp"] = "garbage"
+			u["time"] = -1
+			u["serviceId"] = -1
+		case 4:
+			u["totalVolume"] = 2147483647
+			u["uplinkVolume"] = 2147483647
+			u["downlinkVolume"] = -2147483648
+			u["serviceSpecificUnits"] = -1
+			u["localSequenceNumber"] = -1
+		}
 		u["quotaManagementIndicator"] = pick(c, "quotaManagementIndicator", "ONLINE_CHARGING", "OFFLINE_CHARGING", "QUOTA_MANAGEMENT_SUSPENDED", "", "BOGUS")
 		return u
 	}
@@ -386,7 +468,7 @@ func buildBody(c *Chooser, k string) (body string, supi string) {
 	if k == "create" {
 		muBase = 1
 	}
-	switch (c.Pick(9, "multipleUnitUsage") + muBase) % 9 {
+	switch (c.Pick(9, "multipleUnitUsage-shape") + muBase) % 9 {
 	case 0:
 		o["multipleUnitUsage"] = []any{jsonObj{"ratingGroup": 1, "requestedUnit": jsonObj{"totalVolume": 100}, "usedUnitContainer": []any{cont()}}}
 	case 1:
@@ -404,6 +486,14 @@ func buildBody(c *Chooser, k string) (body string, supi string) {
 		o["multipleUnitUsage"] = []any{jsonObj{"ratingGroup": 1, "requestedUnit": jsonObj{"totalVolume": -5}, "usedUnitContainer": []any{jsonObj{"localSequenceNumber": 1, "totalVolume": -7, "quotaManagementIndicator": "ONLINE_CHARGING"}}}}
 	case 8:
 		o["multipleUnitUsage"] = []any{jsonObj{}, nil}
+	}
+	switch mu := c.Pick(12, "multipleUnitUsage"); {
+	case mu == 9:
+		o["multipleUnitUsage"] = []any{jsonObj{"ratingGroup": -1, "requestedUnit": jsonObj{"totalVolume": 100}, "usedUnitContainer": []any{cont()}}}
+	case mu == 10:
+		o["multipleUnitUsage"] = []any{jsonObj{"ratingGroup": 2147483647, "requestedUnit": jsonObj{"totalVolume": 2147483647}, "usedUnitContainer": []any{cont()}, "uPFID": ""}}
+	case mu == 11:
+		o["multipleUnitUsage"] = []any{jsonObj{"ratingGroup": 1, "requestedUnit": jsonObj{}, "usedUnitContainer": []any{cont(), cont()}}, jsonObj{"ratingGroup": 1, "usedUnitContainer": []any{cont()}}}
 	}
 	switch c.Pick(6, "triggers") {
 	case 1:
